@@ -1037,11 +1037,18 @@ def C11(tier, seed):
                 m["cfg"]["link"] = (len(base) % 4 == 0)
                 base.append(m)
         for i in range(25 if tier == "quick" else 500):
-            c = G.rand_cfg(rng, criteria=("size",), modes=("direct",), clean=(i % 3 != 2))
+            c = G.rand_cfg(rng, criteria=("size",), modes=("direct",), clean=(i % 3 != 2), parts=(i % 2 == 1))
             c["crlf"] = False
             c["bg"] = False
             c["size"] = rng.choice([10, 30, 60])
             c["suffix"] = rng.choice(["log", "txt", "-"])
+            if i % 5 == 0:
+                # number infixes behind a name part that itself contains "_r": the restarted logger must find the
+                # highest existing index
+                c["naming"] = rng.choice(["Num", "NumD"])
+                c["basename"] = rng.choice(["log_reader", "r_r", "app_r00001"])
+                c.pop("fmt", None)
+                c.pop("cur", None)
             steps = [{"op": "Start", "append": rng.random() < 0.3}]
             for _ in range(rng.choice([6, 12])):
                 if rng.random() < 0.1:
@@ -1406,6 +1413,21 @@ def C03(tier, seed):
             transitions += r["transitions"]
             C.log(f"[C03] TLC {cfg}: {r['states']} distinct states; NoDuplicate, PerProducerOrder, OnlyAccepted, AllArrive hold "
                   f"for every interleaving of 2 threads x 2 records (+ application and writer thread)")
+        # a rotation interleaved with the background cleanup thread (buffered writer): FlwClean.tla
+        ccfg = "MCFlwClean_q.cfg" if tier == "quick" else "MCFlwClean_t.cfg"
+        r = C.run_tlc("MCFlwClean.tla", os.path.join(C.SPEC, ccfg), os.path.join(wd, "mc-clean"), workers=4, timeout=900)
+        if r["violated"] or r["deadlock"]:
+            raise C.ToolError(f"FlwClean/{ccfg} violates {r['violated']}")
+        mc_stats.append({"cfg": ccfg, "states": r["states"], "transitions": r["transitions"], "wall_s": r["wall_s"]})
+        states += r["states"]
+        transitions += r["transitions"]
+        ra = C.run_tlc("MCFlwClean.tla", os.path.join(C.SPEC, "MCFlwClean_asis.cfg"), os.path.join(wd, "mc-clean-asis"), workers=1,
+                       timeout=300)
+        if "NoRecordLost" not in (ra["violated"] or []):
+            raise C.ToolError("FlwClean: the rotation that renames before it flushes must violate NoRecordLost")
+        C.log(f"[C03] TLC {ccfg}: {r['states']} distinct states; rotation steps (flush, rename, open, switch, act) interleaved with "
+              f"the cleanup thread (take, compress): NoRecordLost, NoDuplicate, WriterLinked hold; the rotation as pinned "
+              f"(rename before flush) violates NoRecordLost (the defect repaired in /repo)")
         rng = random.Random(seed)
         scens = []
         nsched = 0
@@ -1460,6 +1482,10 @@ def C03(tier, seed):
             if c["mode"] in ("buf", "bufflush"):
                 c["cap"] = rng.choice([8, 64, 256, 8192])
             out = rng.choice(["file", "file", "file", "stdout", "stderr"])
+            if i % 4 == 1:
+                out = "file"                                   # (the compressing cleanup is about files)
+                if i % 8 == 1:
+                    c["cap"] = rng.choice([256, 8192])         # records stay in the buffer across the rotation
             if out != "file" and c["mode"] == "bufflush":
                 c["mode"] = "buf"
             threads = rng.choice([2, 4, 8, 16])
